@@ -34,6 +34,11 @@ MUTABLE_CTORS = {'list', 'dict', 'set', 'bytearray', 'defaultdict', 'deque'}
 
 def check(run):
     R = run
+    R.rule('C17.shared', 'objects created once per class / per function definition (class-level attributes, parameter '
+           'defaults) are only read: no buffer, validator, poll object, header list or option dict is shared between '
+           'connections', 2)
+    from .common import shared_state
+    shared_state(R, 'C17.shared')
     R.rule('C17.reset', 'connect() replaces self.state with a newly constructed State (directly or via reset) before '
                         'creating the session and the run generator; __iter__ is connect', 4)
     R.rule('C17.owner', 'outside __init__, WebSocket methods store/mutate only self.state.* (tabled: _headers.append)', 1)
